@@ -664,7 +664,14 @@ class RequestHandler(BaseProtocol, Generic[_Request]):
             resp = self.handle_error(request, 504)
             resp, reset = await self.finish_response(request, resp, start_time)
         except Exception as exc:
-            resp = self.handle_error(request, 500, exc)
+            status = 500
+            if request._payload.exception() is not None and isinstance(
+                exc, (RequestPayloadError, HttpProcessingError)
+            ):
+                # The request body was malformed (bad chunk framing, a trailer
+                # over the limits ...): the client's fault, noticed only now.
+                status = 400
+            resp = self.handle_error(request, status, exc)
             resp, reset = await self.finish_response(request, resp, start_time)
         else:
             resp, reset = await self.finish_response(request, resp, start_time)
